@@ -209,6 +209,20 @@ def run_probe(world, ws, pidx, finalise_late=None):
 
 
 _FRESH = {}
+CLEAN_FP, CLEAN_ITEMS = canon.module_fingerprint()      # taken at import, before any connection has run in this process
+
+
+class StopJob(Exception):
+    pass
+
+
+def leaked_state():
+    """Names of lomond module/class-level containers or objects whose content differs from a clean process."""
+    fp, items = canon.module_fingerprint()
+    if fp == CLEAN_FP:
+        return []
+    clean = dict(CLEAN_ITEMS)
+    return [k for k, v in items if clean.get(k) != v] or ['(new module-level state)']
 
 
 def fresh_observation(pidx):
@@ -328,8 +342,29 @@ class C17(F.Check):
                             {'cfg': cfg, 'choices': list(ch.taken)})
             if res.executions % 211 == 5 and len(res.samples) < 2:
                 res.samples.append({'history': env.trace, 'probe': probe_scripts()[cfg['probe']][0]})
-        ex = explore.Explorer(lambda c, e: self.one_run(cfg, c, e), check, dev_kinds=('app',), max_dev=cfg['max_dev'], cache=True)
-        ex.run()
+        def guarded(c, e):
+            # state that outlives a connection *outside* the WebSocket object (hoisted to module or class scope) breaks the clean
+            # slate for every later connection in the process -- and would make executions irreproducible: report and stop
+            dirty = leaked_state()
+            if dirty:
+                res.violate('C17:state-outside-object', 'lomond module/class-level state changed by earlier connections and still present: %s' % dirty,
+                            {'cfg': cfg, 'choices': list(last['choices']), 'leak': True})
+                raise StopJob()
+            r = self.one_run(cfg, c, e)
+            last['choices'] = list(c.taken)
+            return r
+        last = {'choices': []}
+        ex = explore.Explorer(guarded, check, dev_kinds=('app',), max_dev=cfg['max_dev'], cache=True)
+        try:
+            ex.run()
+        except StopJob:
+            pass
+        except W.HarnessError:
+            if leaked_state():
+                res.violate('C17:state-outside-object', 'executions diverged; lomond module/class-level state left behind: %s' % leaked_state(),
+                            {'cfg': cfg, 'choices': list(last['choices']), 'leak': True})
+            else:
+                raise
         res.states |= ex.states
         res.transitions |= ex.edges
         res.counters['truncated_runs'] += ex.truncated
@@ -338,6 +373,11 @@ class C17(F.Check):
     def replay(self, case, verbose=True):
         ch = explore.Chooser(case['choices'])
         env, problems, truncated = self.one_run(case['cfg'], ch, None)
+        if case.get('leak'):
+            dirty = leaked_state()
+            if verbose:
+                print('first connection:', env.trace, '-> module/class-level state afterwards differs from a clean process in:', dirty)
+            return [F.Violation('C17:state-outside-object', 'state left behind: %s' % dirty, case)] if dirty else []
         if verbose:
             print('first connection:', env.trace)
             print('probe:', probe_scripts()[case['cfg']['probe']][0])
